@@ -310,7 +310,9 @@ class Real:
                 rel.append(f"synapse class: setter-built {type(a.synapse).__name__} fresh {type(bm.synapse).__name__}")
             return (ra, rb, rel)
         if op == "step":
-            self._forward(a, self._inputs(int(tok[1]), 1)[0])
+            # (plain observations: a grad-requiring observation written out-of-place makes the storage require grad, and
+            #  deinitialize()/clear() preserve that flag — a clear()-does-not-restore matter (C17), not a setter matter)
+            self._forward(a, self._inputs(int(tok[1]), 1)[0].detach())
             return ("ok", "ok", [])
         if op == "run":
             return self._run(int(tok[1]), int(tok[2]))
@@ -384,8 +386,11 @@ class Real:
         for reducers fed grad-requiring observations, whether the state handed out by peek() / the storage carries a
         graph (out-of-place writes keep it, in-place writes are done under no_grad)"""
         before = [None if r.value is None else r.value.data_ptr() for r in self._records(m)] if mode is not None else None
+        after = None
         if self.kind == "red":
             m(x)
+            if mode is not None:    # (measured before dump(), whose align(0) re-allocates the storage in either mode)
+                after = [None if r.value is None else r.value.data_ptr() for r in self._records(m)]
             pk, dp = m.peek(), m.dump()
             out = torch.cat([pk.detach().reshape(-1).to(torch.float64), dp.detach().reshape(-1).to(torch.float64)])
             if mode is not None:
@@ -393,11 +398,12 @@ class Real:
                 mode.append(("peek.requires_grad", pk.requires_grad, "storage.grad_fn is None", v.grad_fn is None))
         else:
             out = m(x)
+            if mode is not None:
+                after = [None if r.value is None else r.value.data_ptr() for r in self._records(m)]
             if self.kind == "neu":
                 out = torch.cat([out.reshape(-1).to(torch.float64), m.voltage.reshape(-1).to(torch.float64)])
             out = out.detach().to(torch.float64)
         if mode is not None:
-            after = [None if r.value is None else r.value.data_ptr() for r in self._records(m)]
             mode.append(("storage reused", tuple(b0 is not None and b0 == a0 for b0, a0 in zip(before, after))))
         return out
 
